@@ -205,7 +205,8 @@ class Collector:
             txt = HEADER + "Definition cases : list ((bool * bool * bool * bool * bool) * list string) :=\n  [" + \
                 ";\n   ".join(terms[si:si + shard]) + "].\nEval vm_compute in (bad_idx ok cases).\n"
             files.append((f"{name}_{si // shard}", txt))
-        res = vlib.coq_eval_many(files, timeout=900, jobs=4)
+        from harness.props.c05_typed import eval_robust
+        res = eval_robust(files, timeout=900, jobs=4)
         bad = []
         for n, (ok, out) in enumerate(res):
             idx = vlib.parse_nat_list(out) if ok else None
@@ -244,7 +245,8 @@ class Collector:
                                   "(list string * list string)) :=\n  [") + ";\n   ".join(terms[si:si + shard]) + \
                 "].\nEval vm_compute in (bad_idx okf cases).\n"
             files.append((f"{name}_{si // shard}", txt))
-        res = vlib.coq_eval_many(files, timeout=900, jobs=4)
+        from harness.props.c05_typed import eval_robust
+        res = eval_robust(files, timeout=900, jobs=4)
         bad = []
         for n, (ok, out) in enumerate(res):
             idx = vlib.parse_nat_list(out) if ok else None
@@ -258,3 +260,69 @@ class Collector:
         if bad:
             ctx.not_shown("correspondence " + name, f"{len(bad)} of {len(terms)} frames differ from K105b: {det}")
         ctx.count(n=len(terms))
+
+
+# ---------------------------------------------------------------------------
+# every reachable combination of the five facts, on every run: two fixed classes (with / without
+# allow_deserialization_not_by_alias + aliases) x 12 fields
+# ---------------------------------------------------------------------------
+COVER_FIELDS = [
+    # (name, annotation, default source | None, pass_through?, nullable, ident, default is None)
+    ("r_int", "int", None, False, False, False),
+    ("r_opt", "Optional[int]", None, False, True, False),
+    ("r_any", "Any", None, False, True, True),
+    ("r_pt", "int", None, True, False, True),
+    ("d_int", "int", "0", False, False, False),
+    ("d_opt", "Optional[int]", "5", False, True, False),
+    ("d_any", "Any", "7", False, True, True),
+    ("d_pt", "int", "0", True, False, True),
+    ("n_opt", "Optional[int]", "None", False, True, False),
+    ("n_any", "Any", "None", False, True, True),
+    ("n_int", "int", "None", False, True, False),
+    ("n_pt", "int", "None", True, True, True),
+]
+
+
+def cover_source(cls: str, nba: bool) -> tuple[str, list[dict]]:
+    lines = ["from dataclasses import dataclass, field", "from typing import Any, Optional",
+             "from mashumaro import DataClassDictMixin, pass_through", "from mashumaro.config import BaseConfig",
+             "@dataclass", f"class {cls}(DataClassDictMixin):"]
+    metas = []
+    # dataclass rule: fields without default first -- COVER_FIELDS is ordered that way
+    for name, ann, dflt, pt, nullable, ident in COVER_FIELDS:
+        md = []
+        if nba:
+            md.append(f"'alias': 'a_{name}'")
+        if pt:
+            md.append("'deserialize': pass_through")
+        args = ([f"default={dflt}"] if dflt is not None else []) + ([f"metadata={{{', '.join(md)}}}"] if md else [])
+        lines.append(f"    {name}: {ann}" + (f" = field({', '.join(args)})" if args else ""))
+        metas.append({"name": name, "type": ann, "key": f"a_{name}" if nba else name, "key2": name if nba else None,
+                      "has_default": dflt is not None, "default": (None if dflt in (None, "None") else eval(dflt)),
+                      "nullable": nullable, "ident": ident})
+    if nba:
+        lines += ["    class Config(BaseConfig):", "        allow_deserialization_not_by_alias = True"]
+    return "\n".join(lines) + "\n", metas
+
+
+def add_coverage(fb: "Collector", recorder_cls):
+    """build the two coverage classes under the recorder and add their field blocks"""
+    import sys
+    import types
+    for cls, nba in (("CoverPlain", False), ("CoverNba", True)):
+        src, metas = cover_source(cls, nba)
+        mname = f"c05_cover_{cls}"
+        m = types.ModuleType(mname)
+        sys.modules[mname] = m
+        try:
+            with recorder_cls() as rec:
+                exec(compile(src, f"<{mname}>", "exec"), m.__dict__)
+            roots = [p for p in rec.programs if "def __mashumaro_from_dict__(" in p and f".{cls}.__mashumaro_from_dict__ method should be" in p]
+            if not roots:
+                fb.bad.append(f"{cls}: no generated from_dict captured")
+            for p in roots:
+                fb.add_program(cls, p, metas)
+        except Exception as e:  # noqa: BLE001
+            fb.bad.append(f"{cls}: coverage class does not build: {type(e).__name__}: {e}"[:200])
+        finally:
+            sys.modules.pop(mname, None)
